@@ -46,6 +46,7 @@ func (c initCase) String() string {
 func runInitWindow(t *testing.T, ic initCase) (fs []finding, fired bool) {
 	st := bases[ic.Base]()
 	var held snapshot
+	engine.GCPoint(1)
 	synctest.Test(t, func(t *testing.T) {
 		srv := newServer(t, st.objects())
 		env := srv.s.Env()
